@@ -167,6 +167,80 @@ def name_classes():
     return pat.pattern, [v for _, v in p[1][1][1]], cls(p[2][1]), cls(p[3][1][2][0][1]), p[4] == (AT, AT_END)
 
 
+def replace_flags():
+    """Shape of `Schema._replace_types_and_directives` in the working tree:
+    (accumulates, atomic, directives_bust).
+      accumulates      the type loop assigns `busted_cache = busted_cache or ...` (ledger T3 fix)
+      atomic           every `raise` is also performed by loops that run BEFORE the first statement that
+                       mutates `self.types` / `self.directives` (proposed fix C13-T3b)
+      directives_bust  the directive loop assigns `busted_cache` too
+    """
+    fn = py2lean.find_function(SCHEMA.read_text(), "_replace_types_and_directives", cls="Schema")
+
+    def mutates(node):
+        for n in ast.walk(node):
+            tgts = []
+            if isinstance(n, ast.Assign):
+                tgts = n.targets
+            elif isinstance(n, ast.Delete):
+                tgts = n.targets
+            elif isinstance(n, ast.Call) and isinstance(n.func, ast.Attribute) and n.func.attr in ("pop", "update", "clear", "setdefault"):
+                tgts = [ast.Subscript(value=n.func.value)]
+            for t in tgts:
+                if isinstance(t, ast.Subscript) and isinstance(t.value, ast.Attribute) and t.value.attr in ("types", "directives"):
+                    return t.value.attr
+        return None
+
+    def iterates(loop):
+        src = ast.dump(loop.iter)
+        return "types" if "'types'" in src else ("directives" if "'directives'" in src else None)
+    loops = [n for n in fn.body if isinstance(n, ast.For)]
+    if not loops:
+        raise py2lean.Untranslatable("_replace_types_and_directives has no loops")
+    first_mut = next((i for i, l in enumerate(loops) if mutates(l)), None)
+    if first_mut is None:
+        raise py2lean.Untranslatable("_replace_types_and_directives mutates nothing")
+    pre = loops[:first_mut]
+    mut = loops[first_mut:]
+
+    def raises(ls, what):
+        return sum(1 for l in ls if iterates(l) == what for n in ast.walk(l) if isinstance(n, ast.Raise))
+    atomic = (raises(pre, "types") >= raises(mut, "types") > 0) and (raises(pre, "directives") >= raises(mut, "directives"))
+
+    def busted_assign(loop):
+        out = []
+        for n in ast.walk(loop):
+            if isinstance(n, ast.Assign) and getattr(n.targets[0], "id", None) == "busted_cache":
+                out.append(n.value)
+        return out
+    tl = [l for l in mut if iterates(l) == "types"]
+    dl = [l for l in mut if iterates(l) == "directives"]
+    if len(tl) != 1 or len(dl) != 1:
+        raise py2lean.Untranslatable("expected one mutating loop over types and one over directives")
+    ta = busted_assign(tl[0])
+    if len(ta) != 1:
+        raise py2lean.Untranslatable("type loop: expected one assignment to busted_cache")
+
+    def is_acc(v):
+        return (isinstance(v, ast.BoolOp) and isinstance(v.op, ast.Or)
+                and isinstance(v.values[0], ast.Name) and v.values[0].id == "busted_cache")
+    da = busted_assign(dl[0])
+    return is_acc(ta[0]), atomic, bool(da) and all(is_acc(v) for v in da)
+
+
+def specified_directive_names():
+    import importlib.util
+    src = (REPO / "src/py_gql/schema/directives.py").read_text()
+    tree = ast.parse(src)
+    names = []
+    for n in ast.walk(tree):
+        if isinstance(n, ast.Call) and getattr(n.func, "id", "") == "Directive" and n.args and isinstance(n.args[0], ast.Constant):
+            names.append(n.args[0].value)
+    if sorted(names) != ["deprecated", "include", "skip"]:
+        raise py2lean.Untranslatable("specified directives changed: %r" % names)
+    return names
+
+
 def lean_str(s):
     return '"' + s.replace("\\", "\\\\").replace('"', '\\"').replace("\n", "\\n") + '"'
 
@@ -200,7 +274,16 @@ def extract(ctx=None):
           "/-- (rule id, format strings of its `add_error` call sites) -/",
           "def ruleFormats : List (String × List String) := ["]
     tl.append(",\n".join("  (%s, [%s])" % (lean_str(r), ", ".join(lean_str(f) for f in fs)) for r, fs in table.items()))
-    tl += ["]", "", "/-- the proposed fix C13-S4-S6 is present in the working tree -/",
+    acc, atomic, dbust = replace_flags()
+    tl += ["]", "",
+           "/-- `_replace_types_and_directives`: `busted_cache = busted_cache or ...` in the type loop (T3 fix) -/",
+           "def replaceAccumulates : Bool := %s" % ("true" if acc else "false"),
+           "/-- `_replace_types_and_directives` performs every refusal before the first mutation (fix C13-T3b) -/",
+           "def replaceAtomic : Bool := %s" % ("true" if atomic else "false"),
+           "/-- a replaced / added / removed directive busts the caches (fix C13-T3b) -/",
+           "def replaceDirectivesBust : Bool := %s" % ("true" if dbust else "false"),
+           "def specifiedDirectives : List String := [%s]" % ", ".join(lean_str(n) for n in specified_directive_names()),
+           "", "/-- the proposed fix C13-S4-S6 is present in the working tree -/",
            "def fixS4S6 : Bool := %s" % ("true" if fix_applied() else "false"),
            "end PyGql.Generated.SchemaValidTables", ""]
     return {"PyGqlModel/Generated/Subtype.lean": sub, "PyGqlModel/Generated/SchemaValidTables.lean": "\n".join(tl)}
